@@ -39,6 +39,8 @@ def run(ctx: Ctx):
     def ok_remove(s):
         if s.func in (pick, cancel_inner):
             return "pick_up_trip / CancelRequests"
+        if s.func is not None and s.func.relpath == CAN and (s.func.qualname.startswith("CancelRequests.update") or s.func.name == cancel_inner.name):
+            return "CancelRequests (the removal step of its fold, wherever it is defined in that module)"
         return None
 
     rules.rule_callers(ctx, "D1", "remove_request", ok_remove, "a waiting request is consumed only by pickup or cancellation", 2)
@@ -296,6 +298,7 @@ def dropoff(ctx: Ctx):
     # destination check inside drop_off_trip (shared with C07-D5)
     from .c07 import dropoff as c07_dropoff
     c07_dropoff(ctx)
+    ctx.attempt(c07_dropoff, ctx, True)
 
 
 def cancellation(ctx: Ctx, timing: bool = True):
